@@ -38,6 +38,7 @@ type HarnessSpec struct {
 	MaxEnum      int      `json:"max_enum"`
 	TimeoutMs    int      `json:"timeout_ms"`
 	FPTimeoutMs  int      `json:"fp_timeout_ms"`
+	ForkHardFP   bool     `json:"fork_hard_fp"`
 	Workers      int      `json:"workers"`
 	RequireReach []string `json:"require_reach"`
 	Bounds       string   `json:"bounds"`
@@ -313,6 +314,7 @@ func main() {
 			cfg.TimeoutMs = 600000
 		}
 		cfg.FPTimeoutMs = h.FPTimeoutMs
+		cfg.ForkHardFP = h.ForkHardFP
 		if *tier == "thorough" && cfg.Solver == "z3" {
 			cfg.CrossCheck = "z3-new"
 		}
